@@ -34,5 +34,6 @@ func init() {
 		})
 		vmLeg(c, c.N(500, 8000), vmSizes{k: 24, maxSteps: 4000, maxText: 12, extra: 2}) // leg W: interpreter model vs executeDefault (vm.go)
 		wrLeg(c, 4000, 400000)
+		ccLeg(c, 3000, 150000) // leg Cc: toPat / InFrag / both sides of compile_correct on the engine's trees (compile.go)
 	})
 }
